@@ -22,7 +22,7 @@ func (fx *Fx) entryVars() map[string]Val {
 func newFx(p *Prog, fn *ssa.Function, ct *Contract) *Fx {
 	fx := &Fx{P: p, Fn: fn, C: ct, Name: fnName(fn), Loops: map[*ssa.BasicBlock]*LoopInfo{},
 		ipdom: map[*ssa.Function]map[*ssa.BasicBlock]*ssa.BasicBlock{}, loopsOf: map[*ssa.Function]map[*ssa.BasicBlock]*LoopInfo{},
-		siteCnt: map[string]int{}, Havocked: map[string]bool{}, Trusted: map[string]bool{}, UsedSpec: map[string]bool{}, ConstTables: map[string]bool{},
+		siteCnt: map[string]int{}, Havocked: map[string]bool{}, Trusted: map[string]bool{}, UsedSpec: map[string]bool{}, LemmasUsed: map[string]bool{}, KeyFacts: map[*Term]bool{}, ConstTables: map[string]bool{},
 		loopCtxs: map[*LoopInfo]*loopCtx{}}
 	if ct != nil {
 		fx.Sweep = ct.Sweep
@@ -158,6 +158,11 @@ func (p *Prog) verifyFunc(fn *ssa.Function, ct *Contract) (fx *Fx, err error) {
 	}
 	for _, e := range ct.Ensures {
 		fx.oblige(fin, "post", e.Label, p.elab(fx, e.X, post).Scalar(), fn.Pos())
+	}
+	for i, rd := range ct.Returns {
+		a := p.elabT(fx, rd[0], post)
+		b := coerceTo(p.elabT(fx, rd[1], post), a.S)
+		fx.oblige(fin, "post", fmt.Sprintf("returns%d:%s", i+1, rd[0].String()), Eq(a, b), fn.Pos())
 	}
 	for i, f := range ct.Fresh {
 		v := p.elab(fx, f, post)
